@@ -247,6 +247,10 @@ class Engine:
         sc["slow_disk"] = T.draw(3) == 0
         sc["stale_files"] = T.draw(3) == 0
         sc["slow_observers"] = T.draw(3) == 0
+        # the program looks at saver.data while the stream is still running
+        # (a read-only property; must not disturb anything)
+        sc["peek_saver_data"] = T.draw(4) if (saver is not None
+                                              and T.draw(5) == 0) else 0
         # the program joins only the tokenizer and returns (as a script
         # would): non-daemon observers still finish before the process exits
         sc["join_only_tokenizer"] = (
@@ -533,6 +537,13 @@ class Engine:
                 arm_stop()
             tok.start_all()
             sim.note("started")
+            for _ in range(sc.get("peek_saver_data", 0) if saver is not None
+                           else 0):
+                sim.step("peek", None)
+                try:
+                    saver.data
+                except Exception:
+                    pass   # a wav still being written may not be readable
             if stop is None and sc.get("join_only_tokenizer"):
                 tok.join()
                 res["complete"] = True
